@@ -1,6 +1,6 @@
 (* C20 — Statistics count exactly what happened (ghost counters of the concrete model are placed
    exactly where the code calls the recorder). *)
-From Otter Require Import Base Seq Spec SeqRefine SeqFacts.
+From Otter Require Import Base Seq Spec SeqRefine SeqFacts Adder AdderProofs.
 
 (* one lookup of a counting operation: hits + misses grows by exactly one; it is a hit exactly
    when an unexpired entry was found; loads and evictions untouched *)
@@ -108,3 +108,57 @@ Example C20_nonvacuous :
                                OBulkGet [1; 2; 2; 3] (BMap [(2, 7)]) 0 0]) in
   (hits (cst s), misses (cst s), lsucc (cst s), lfail (cst s)) = (2, 4, 1, 1).
 Proof. vm_compute. reflexivity. Qed.
+
+(* ---- the striped counter behind every statistic (internal/xsync/adder.go), small-step model, any
+   number of threads, all schedules, every choice of probe indices ---- *)
+
+(* once no Add is in flight the stripes sum (mod 2^64) to the deltas of all Adds invoked, each
+   applied exactly once: no increment lost to a failed CAS, none applied twice *)
+Theorem C20_adder_exact_when_quiescent : forall n k sch,
+  (0 < n)%nat ->
+  let a := arun sch (adder_init n k) in
+  quiescent a ->
+  wrapu (sumZ (cells a)) = wrapu (sumZ (deltas (started a))) /\
+  length (applied a) = length (started a) /\
+  sumZ (deltas (applied a)) = sumZ (deltas (started a)).
+Proof. exact adder_quiescent. Qed.
+Print Assumptions C20_adder_exact_when_quiescent.
+
+(* at every moment: stripes = applied deltas; invoked = applied + in flight (sums and counts) *)
+Theorem C20_adder_accounting : forall n k sch,
+  (0 < n)%nat -> AInv (arun sch (adder_init n k)).
+Proof. intros n k sch Hn. apply adder_inv, adder_init_inv, Hn. Qed.
+Print Assumptions C20_adder_accounting.
+
+(* a snapshot (Value) that overlaps Adds returns something between the total when it was invoked and
+   the total when it returned; totals below 2^64, non-negative deltas (what stats.Counter does) *)
+Theorem C20_snapshot_bounds : forall n k sch t v st,
+  (0 < n)%nat ->
+  let a := arun sch (adder_init n k) in
+  NoWrap a -> nth t (aths a) TIdle = TVal v st ->
+  sumZ st <= v <= sumZ (cells a).
+Proof. exact scan_bounds. Qed.
+Print Assumptions C20_snapshot_bounds.
+
+(* counters never decrease: a snapshot invoked after another one returned is not smaller, whatever
+   Adds and snapshots overlap either of them *)
+Theorem C20_counters_never_decrease : forall n k sch1 sch2 sch3 t1 t2 v1 st1 v2 st2,
+  (0 < n)%nat ->
+  let a1 := arun sch1 (adder_init n k) in
+  let a2 := arun sch2 a1 in
+  let a3 := astep a2 (t2, IScan) in
+  let a4 := arun sch3 a3 in
+  NoWrap a4 ->
+  nth t1 (aths a1) TIdle = TVal v1 st1 ->
+  (t2 < length (aths a2))%nat -> is_running (nth t2 (aths a2) TIdle) = false ->
+  no_restart t2 sch3 ->
+  nth t2 (aths a4) TIdle = TVal v2 st2 ->
+  v1 <= v2.
+Proof. exact value_never_decreases. Qed.
+Print Assumptions C20_counters_never_decrease.
+
+Example C20_adder_nonvacuous :
+  cells adder_example_run = [5; 7] /\ nth 2 (aths adder_example_run) TIdle = TVal 7 [0; 0] /\
+  deltas (started adder_example_run) = [5; 7] /\
+  forallb (fun x => negb (is_running x)) (aths adder_example_run) = true.
+Proof. exact adder_example. Qed.
